@@ -9,11 +9,11 @@
   shares a target (complete for global channels and for 'wait-for-all'); minimality of the
   start instant; the 'no-delay' start; exactness of `estimate_added_delay`.
   Not proved here (correspondence + monitor only): conflict-freedom w.r.t. an *older* pulse
-  of a local channel that was retargeted since (needs the `FallClear` invariant), and the
-  `align` clause.
+  of a local channel that was retargeted since (needs the `FallClear` invariant).
 -/
 import Proofs.Protocol
 import Proofs.SeqInv
+import Proofs.Align
 namespace Pulser
 namespace C03
 
@@ -151,6 +151,23 @@ theorem estimate_exact {ms : Option Nat} {c c' : ChanState} {others : List ChanS
 slot, it returns `slot.ti − t0` and leaves the sequence unchanged. -/
 theorem estimate_returns_gap (s : SeqState) (p : PulseIn) (c : ChanState) (proto : Protocol) :
     (estimateCore s p c proto).st = s := estimateCore_st s p c proto
+
+/-- **`align`.**  `Sequence.align(*channels, at_rest)` computes `T`, the latest of the channels'
+ends (counting fall time when `at_rest`), and runs `alignLoop T` over the channels.  If it
+succeeds, every aligned channel that ended before `T` is extended by an executable delay `g`
+(≥ minimum duration, clock multiple) with `end + g ≥ T`; a channel already at or past `T` and
+every channel not named are untouched.  (After the repair of F1 the delay is measured from the
+channel's bare end.  "End together exactly at `T`" holds iff `T − end` is itself executable on
+each channel: known finding F7a otherwise.) -/
+theorem align_granular (T : Int) (l : List (ChName × Int)) (s : SeqState)
+    (hnd : (l.map (·.1)).Nodup) (hi : SeqInv s) (hok : (alignLoop T l s).err = none) :
+    (∀ n ∈ l.map (·.1), ∀ c, s.getChan n = some c →
+      ∃ c', (alignLoop T l s).st.getChan n = some c' ∧
+        ((T ≤ c.getDuration false ∧ c'.getDuration false = c.getDuration false) ∨
+         (c.getDuration false < T ∧ ∃ g : Nat, c'.getDuration false = c.getDuration false + g ∧
+            T ≤ c.getDuration false + g ∧ c.cfg.minDur ≤ g ∧ c.cfg.clock ∣ g))) ∧
+    (∀ m, m ∉ l.map (·.1) → (alignLoop T l s).st.getChan m = s.getChan m) :=
+  alignLoop_spec T l s hnd hi hok
 
 /-! ### Non-vacuity -/
 
